@@ -1,7 +1,7 @@
 (* C10 -- the overlay shows the overlayfs union of its layers and never modifies lowers.
    Only statements, closed by [exact]; proofs live in Proofs/Overlay*.v. *)
 From Coq Require Import List String NArith Bool.
-From FB Require Import Model.Overlay Proofs.OverlayInv Proofs.OverlayScan Proofs.OverlayRestart Proofs.OverlayReadOnly Proofs.OverlayCoh Proofs.OverlayCohView Proofs.OverlayCohOps Proofs.OverlayCohSteps Proofs.OverlayRefineTeq Proofs.OverlayRefineMerge Proofs.OverlayRefineRun Proofs.OverlayRefine Proofs.OverlayRefineWh.
+From FB Require Import Model.Overlay Proofs.OverlayInv Proofs.OverlayScan Proofs.OverlayRestart Proofs.OverlayReadOnly Proofs.OverlayCoh Proofs.OverlayCohView Proofs.OverlayCohOps Proofs.OverlayCohSteps Proofs.OverlayRefineTeq Proofs.OverlayRefineMerge Proofs.OverlayRefineRun Proofs.OverlayRefine Proofs.OverlayRefineWh Proofs.OverlayRefineCu.
 Import ListNotations.
 Local Open Scope string_scope.
 Local Open Scope N_scope.
@@ -151,6 +151,54 @@ Proof.
   repeat (first [apply Forall_cons | apply Forall_nil | split | apply wf_dir | apply wf_file | apply wf_lnk | apply wf_wh
                 | apply NoDup_cons | apply NoDup_nil | (cbn; intuition discriminate) | reflexivity ]).
 Qed.
+(* (c), COPY-UP NEUTRALITY for directories (Proofs/OverlayRefineCu.v).  create_upper_dir / copy_node_up of a visible
+   directory (the whole chain of missing ancestors gets an upper copy) succeeds and leaves the client's view unchanged,
+   PROVIDED ([cu_disk_ok u ls p]) every directory on the way that the upper layer lacks has, in its first candidate layer,
+   no user xattrs and a mode within 01777.  The first hypothesis is exactly the known finding copy-up-drops-xattrs
+   (C10_op_refines_refuted): the theorem marks the boundary of the defect; the second is what mkdirat keeps of a mode
+   (set-uid / set-gid bits of a lower directory are lost by copy-up in this model). *)
+Theorem C10_copy_up_dir_neutral : forall s (p : path) u n md x ch,
+  Coherent s -> upper s = Some u -> nget p (root s) = Some n -> node_stat s n = Some (Dir md x ch) ->
+  (List.length p < DEPTH)%nat -> cu_disk_ok u (lowers s) p ->
+  let s1 := snd (copy_node_up p s) in
+  fst (copy_node_up p s) = Ok tt /\ Coherent s1 /\ lowers s1 = lowers s /\ oteq (view (load_all s1)) (view (load_all s)) /\
+  (forall n1, nget p (root s1) = Some n1 -> in_upper n1 = true).
+Proof. exact copy_up_dir_neutral. Qed.
+(* ... and by composition with the no-copy-up fragment: MKDIR / CREATE / MKNOD / SYMLINK of a name without candidates
+   below a visible directory that may exist in lower layers only ([direct_cu]: boolean, disk state only; [visb]: every
+   component of the parent path is found through a directory and is not a whiteout; [cu_okb]: the hypothesis above).
+   Same statement as C10_op_refines_direct, on [teq] (only directories are copied, no file identity changes). *)
+Theorem C10_op_refines_copyup : forall s o v, Coherent s -> direct_cu s o = true -> view (load_all s) = Some v ->
+  let spec := fs_apply o (mkFs v (next_ino s)) in
+  res_same (fst (step o s)) (fst spec) /\
+  oteq (view (load_all (run_op o s))) (Some (f_tree (snd spec))) /\
+  lowers (run_op o s) = lowers s.
+Proof. exact op_refines_copyup. Qed.
+Theorem C10_op_refines_copyup_history : forall u ls nx ops o, Forall layer_ok (u :: ls) -> coh_history ops = true ->
+  direct_cu (run_dumps ops (load_all (fresh (Some u) ls nx))) o = true -> op_refines (Some u) ls nx ops o.
+Proof. exact op_refines_copyup_history. Qed.
+(* non-vacuity, and the hypotheses are needed: below y/ (user xattr) and s/ (mode 04755) the refinement really fails *)
+Example C10_op_refines_copyup_nonvacuous :
+  let u := Dir 493 [] [("d", Dir 493 [] [])] in
+  let l := Dir 493 [] [("d", Dir 448 [] [("e", Dir 448 [] [("g", Dir 493 [("user.overlay.opaque", [121])] [])])]); ("z", Dir 493 [] []);
+                       ("y", Dir 493 [("user.k", [1])] [("q", Dir 493 [] [])]); ("s", Dir 2541 [] [])] in
+  let s := load_all (fresh (Some u) [l] 1000) in
+  let fails o := match view s with
+                 | Some v => negb (String.eqb (ser_opt (view (load_all (run_op o s)))) (ser SER (f_tree (snd (fs_apply o (mkFs v 1000))))))
+                 | None => false end in
+  Coherent s /\
+  forallb (direct_cu s) [OMkdir ["z"; "n"] 493; OCreate ["d"; "e"; "c"] 420; OSymlink ["d"; "e"; "g"; "k"] [1]; OMknod ["d"; "e"; "g"; "c"] 420;
+                         OMkdir ["d"; "n"] 493] = true /\
+  forallb (fun o => negb (direct_cu s o)) [OMkdir ["y"; "n"] 493; OMkdir ["y"; "q"; "n"] 493; OCreate ["s"; "c"] 420; OMkdir ["z"] 493;
+                                          OMkdir ["w"; "n"] 493] = true /\
+  forallb fails [OMkdir ["y"; "n"] 493; OMkdir ["y"; "q"; "n"] 493; OCreate ["s"; "c"] 420] = true /\
+  upper (run_op (OCreate ["d"; "e"; "c"] 420) s) = Some (Dir 493 [] [("d", Dir 493 [] [("e", Dir 448 [] [("c", File 1000 420 [] [])])])]).
+Proof.
+  cbv zeta. split; [|vm_compute; repeat split; reflexivity].
+  apply load_all_coherent. apply fresh_coherent.
+  repeat (first [apply Forall_cons | apply Forall_nil | split | apply wf_dir | apply wf_file | apply wf_lnk | apply wf_wh
+                | apply NoDup_cons | apply NoDup_nil | (cbn; intuition discriminate) | reflexivity ]).
+Qed.
 (* two ingredients, of independent use: the ordinary file system cannot tell [teq] trees apart (same answer, [teq] results) ... *)
 Theorem C10_ordinary_fs_respects_teq : forall o a b n, teq a b ->
   res_same (fst (fs_apply o (mkFs a n))) (fst (fs_apply o (mkFs b n))) /\
@@ -275,6 +323,9 @@ Print Assumptions C10_op_refines_direct.
 Print Assumptions C10_op_refines_direct_history.
 Print Assumptions C10_op_refines_whiteout.
 Print Assumptions C10_op_refines_whiteout_history.
+Print Assumptions C10_copy_up_dir_neutral.
+Print Assumptions C10_op_refines_copyup.
+Print Assumptions C10_op_refines_copyup_history.
 Print Assumptions C10_ordinary_fs_respects_teq.
 Print Assumptions C10_merge_update.
 Print Assumptions C10_merge_file_change.
